@@ -12,7 +12,7 @@ fn go<T: Lab>(op: &str, args: &[Arg]) -> Option<String> {
             let (a, b) = (mk::<T>(s1, e1)?, mk::<i64>(s2, e2)?);
             res_parr(&a.zip(&b))
         }
-        ("broadcast_to", [Arg::A(s1, e1), Arg::L(sh)]) => res_arr(&mk::<T>(s1, e1)?.broadcast_to(usizes(sh))),
+        ("broadcast_to", [Arg::A(s1, e1), Arg::L(sh)]) => { let x = mk::<T>(s1, e1)?; w2(res_arr(&x.broadcast_to(usizes(sh))), res_arr(&okr(&x).broadcast_to(usizes(sh)))) },
         ("broadcast_arrays", [Arg::As(l)]) => {
             let arrs = l.iter().map(|(s, e)| mk::<T>(s, e)).collect::<Option<Vec<_>>>()?;
             res_arrs(&Array::broadcast_arrays(arrs))
